@@ -198,7 +198,10 @@ def run_session(job):
             mvs = {'args': [snap(a) for a in args if isinstance(a, K.MultiVector)]}
             for nm, m in (('res', res), ('fresh', fres), ('direct', direct)):
                 if m is not None and not isinstance(m, K.MultiVector):
-                    raise K.EncodeError(f'{nm} is not a multivector: {type(m).__name__}')
+                    if isinstance(m, (int, float, K.G)) or hasattr(m, 'is_Rational') or type(m).__name__ == 'Fraction':
+                        m = K.mv_from(alg, (0,), [m])      # a plain number is the scalar multivector
+                    else:
+                        raise K.EncodeError(f'{nm} is not a multivector: {type(m).__name__}')
                 mvs[nm] = snap(m) if m is not None else ([], [])
             allG = [c for kk, cs in ([mvs['res'], mvs['fresh'], mvs['direct']] + mvs['args'] + before + after) for c in cs]
             ring = 'poly' if all(c.is_poly() for c in allG) else 'rat'
